@@ -365,8 +365,7 @@ Theorem c09_folding_range f (l : list rng) : small f ->
 Proof.
   intros Hs. unfold h_folding_range. rewrite (line_index_ok Hs). cbn [bind].
   rewrite (mapM_ok _ (spec_lines content f)); [reflexivity|].
-  intros r _. unfold folding_range. rewrite !pos_to_line_ok. cbn [bind].
-  rewrite !line_u32 by exact Hs. reflexivity.
+  intros [a b] _. unfold folding_range. rewrite (to_proto_folding_range_ok _ a b Hs). reflexivity.
 Qed.
 
 Theorem c09_inlay_hint f (l : list N) : small f -> (forall o, In o l -> on_char_boundary (content f) o) ->
